@@ -190,7 +190,7 @@ func checkMain(args []string) int {
 		}
 		done[k] = true
 		c := w.contracts[k]
-		if c == nil || c.RecvIface {
+		if c == nil || c.RecvIface || c.Opaque {
 			continue
 		}
 		u := w.VerifyUnit(c.Fn, c)
